@@ -26,7 +26,9 @@ const c14RootSchema = `{
 const c14SubSchema = `{
   "type": "object",
   "required": ["s"],
+  "definitions": {"port": {"type": "integer", "minimum": 1}},
   "properties": {"s": {"type": "string"}, "size": {"type": "integer", "maximum": 5},
+                 "port": {"$ref": "#/definitions/port", "maximum": 65535},
                  "global": {"type": "object", "properties": {"tier": {"enum": ["dev", "prod"]}}}}
 }`
 
@@ -213,7 +215,12 @@ func genC14(seed, index uint64, tier string) *Plan {
 				break
 			}
 			violates = "sub"
-			switch g.N(4) {
+			switch g.N(5) {
+			case 4:
+				// a keyword next to a $ref: the schema names no dialect, and in the one Helm compiles such schemas with the
+				// neighbours of a reference constrain the value like any other keyword
+				vals[subKey] = map[string]interface{}{"port": float64(70000)}
+				rule = "ref-sibling-maximum"
 			case 3:
 				// a global the subchart's schema constrains (the root schema says nothing about it)
 				vals["global"] = map[string]interface{}{"tier": "bogus"}
